@@ -83,10 +83,18 @@ def r3_header(ck, cx, kind, cls):
         fn = cx.idx.find_method(cls, name)
         if fn is None:
             continue
-        for node in ast.walk(fn.node):
-            if isinstance(node, ast.Assign) and any(U(t) == 'self._header' for t in node.targets):
-                v = cx.ce.try_ev(node.value, fn.mod, cls, default='?')
-                vals.setdefault(name, []).append(bool(v) if v != '?' else '?')
+        from ..common import annotate
+        for p in cx.enum(fn, cls, max_depth=2):
+            if p.exit and p.exit[0] == 'exc':
+                continue
+            st = annotate(p, heap=True)
+            hv = st.heap.get('self._header')
+            if hv is None:
+                continue
+            v = cx.ce.try_ev(hv, fn.mod, cls, default='?')
+            t = (bool(v) if v != '?' else '?')
+            if t not in vals.setdefault(name, []):
+                vals[name].append(t)
     if not tests:
         ck.ob('R3', cls.qn, 'no method branches on the truthiness of the header (nothing to compare)', True)
         return 0
